@@ -18,3 +18,11 @@ add("C18", "exploration",
     "Bounded exploration of circuits x passes x pipeline shapes with independent effect predicates (reachability, signatures, unary chains, sequencing equality); the truth-table clause (no two non-input gates equivalent after MergeEquivalentGates) is decided by z3 per gate pair.",
     "Program dimension is enumerated (no value dimension except pairwise inequivalence). Bounded: <=5 inputs, <=13 gates.",
     "bounded exploration + z3 pairwise inequivalence", "DESIGN.md §3 C18")
+add("C14", "translation_validation",
+    "Translation validation: into_bench is run on each circuit of a bounded family (per-type lemma circuits incl. identical operands and chains, blocks) and z3 decides over all inputs that every pre-existing gate keeps its function; remaining types, well-formedness (users index), helper-gate block membership and the non-mutating drawing path are checked per instance.",
+    "Trusted: CPython, z3, proxies. Bounded: <=5 inputs, <=14 gates, <=2 blocks. Circuits without inputs and constants with operands outside.",
+    "translation validation with z3 equivalence per pre-existing gate", "DESIGN.md §3 C14")
+add("C13", "translation_validation",
+    "Translation validation: for each ordered pair of circuits z3 decides the validity of miter_out(x) <=> exists i. left_i(x) != right_i(x) on real-evaluator terms (inputs matched by position); operands unchanged, shapes, well-formedness, dedicated error for mismatched shapes, and satisfiability through Tseytin + solver stub vs z3's inequivalence verdict.",
+    "Trusted: CPython, z3, proxies, SAT stub. Bounded: <=4 inputs (seeded) / feature family, 1..3 outputs, <=8 gates.",
+    "translation validation with z3 validity of the miter specification", "DESIGN.md §3 C13")
